@@ -692,6 +692,12 @@ def check(pid, tier, seed):
                 if hits:
                     found = (comp, hits, rep)
                     break
+        if found is None and extra:
+            # property-specific search at full strength (e.g. the -race stress for C09)
+            ex_viol, _ = extra(tier="thorough", seed=seed + 7919, workdir=workdir, hbins=hbins, root=ROOT, repo=REPO,
+                               goenv=GOENV, build_harness=build_harness, sh=sh, log=log)
+            if ex_viol:
+                found = (None, ex_viol, {"mon_samples": []})
         body = {"property": pid, "seed": seed, "tier": tier, "broken_theorems": proof["broken"],
                 "proof_output": proof.get("output_tail", ""),
                 "divergences": [{kk: d[kk] for kk in d if kk != "line"} for d in all_divs[:5]],
